@@ -103,9 +103,9 @@ Section Optimize.
   Variable split : list rule -> list rule * list (list rule).
   Definition optimize_bucket (hash_order : list (list rule) -> list (list rule)) (b : list rule) : list rule :=
     let own := filter (fun r => negb (shared r)) b in
-    (if Nat.ltb 1 (length own)
-     then optimize_from (fst (split own)) (hash_order (snd (split own)))
-     else own) ++ filter shared b.
+    by_id ((if Nat.ltb 1 (length own)
+            then optimize_from (fst (split own)) (hash_order (snd (split own)))
+            else own) ++ filter shared b).      (* sorted by id again since /repo e89168f *)
 
   (* the whole map: `for (key, filters) in self.filter_map.drain()` *)
   Definition fl_optimize (hash_order : list (list rule) -> list (list rule)) (m : bucket_map) : bucket_map :=
